@@ -296,11 +296,16 @@ def _canon_with(expr: Optional[ast.AST], ren: Dict[str, str], wild: set) -> str:
         return ast.dump(e)
 
 
+def digest(fn) -> str:
+    import hashlib
+    return hashlib.md5(ast.dump(fn).encode()).hexdigest()[:16]
+
+
 def ref_entry(fn) -> dict:
     """what the reference table stores for one function"""
     names = local_names(fn)
     sites = [(n, k, _canon_with(v, {}, set())) for n, k, v in binding_sites(fn) if n in names]
-    return {"locals": names, "sites": sites}
+    return {"locals": names, "sites": sites, "digest": digest(fn)}
 
 
 def align(fn, ref: dict) -> Dict[str, str]:
@@ -568,6 +573,8 @@ def normalize_module(tree: ast.Module, modname: str, table: Optional[dict] = Non
         ref = mt.get(qn)
         if ref is None:
             continue
+        if ref.get("digest") == digest(fn):
+            continue        # unchanged since the reference tree: already in the rules' vocabulary
         try:
             m = align(fn, ref)
         except RecursionError:
